@@ -55,6 +55,7 @@ var commands = map[string]command{
 	"versions-replay":     versionsReplay,
 	"vdrapi-replay":       vdrapiReplay,
 	"clientsend-replay":   clientsendReplay,
+	"patcharray-replay":   patcharrayReplay,
 	"chain-replay":        chainReplay,
 	"client-replay":       clientReplay,
 	"transform-replay":    transformReplay,
